@@ -36,6 +36,11 @@ CLAIMS = {
         "Exploration: 74 form factors x 4 structure factors x 12 (quick) / 120 (thorough) generated cases incl. volfraction-in-P, hollow P, P without Fq, vector-parameter P, magnetic P (2-D), dispersed user radius in mode 0; beta+2-D refusal is a listed finding.",
         "Assumes P alone and S alone are evaluated correctly (C01); equal NaNs on both sides agree but are not counted as non-trivial.",
         "DESIGN.md section 3 C07"),
+    "C08": (
+        "grammar-generated model expressions (2-4 leaves, nested P@S, sums of products) with Hypothesis-drawn per-leaf parameters; oracle = positional reading of the combined parameter table + stand-alone evaluation of every leaf combined as stated (reference model), plus permutation metamorphic relation",
+        "Exploration: 800 (quick) / 15k (thorough) generated expressions over the builtin models incl. zero components, dispersed leaves, oriented and magnetic leaves in 2-D; one defect repaired (zero factor), three listed findings keyed by input class.",
+        "Assumes leaves alone are evaluated correctly (C01/C07); leaves costing >5 ms per evaluation are excluded from the pool (recorded).",
+        "DESIGN.md section 3 C08"),
     "C13": (
         "Hypothesis-generated parameter sets (model random() by drawn seed, defaults, coincidence-breaking perturbations) with metamorphic relations of known effect: lambda^3 / lambda / mu^2 scaling by declared unit exponents",
         "Exploration: every eligible shape:* model (42) x 40 (quick) / 800 (thorough) cases; relations on I, R_eff per mode, V_form, V_shell; three wrong unit labels repaired, five model-level deviations listed per (model, relation).",
